@@ -51,7 +51,8 @@ Definition encode_transition (t : level * level) : string := join_trans (norm_tr
 
 (* species: symbol as written in the registry and atomic number (an Isotope has its own symbol and
    the atomic number of its element) *)
-Record species := { sym : string; znum : Z }.
+(* [is_elem] = isinstance(x, Element): every update function raises TypeError for an argument that is not *)
+Record species := { sym : string; znum : Z; is_elem : bool }.
 Definition lsym (s : species) : string := lower (sym s).
 (* utility.py:44-52 *)
 Definition valid_charge (s : species) (q : Z) : bool := q <=? znum s.
@@ -187,11 +188,23 @@ Definition get (root : path) (k : key) (d : fs) : option val := get_loc root (lo
 (* ------------------------------------------------------------------------------------------ *)
 (* a leaf of the nested dictionary: the key it is stored under, whether its data passes the
    function's per-leaf validation, the value *)
-Record item := { it_key : key; it_ok : bool; it_val : val }.
+(* [it_ser]: can json.dumps serialise what this leaf adds (beam/stopping.py, beam/population.py dump the caller's whole
+   dictionary: an entry that is not JSON-serialisable raises TypeError, since 8169c8d before the file is opened) *)
+Record item := { it_key : key; it_ok : bool; it_ser : bool; it_val : val }.
 (* one visit of a file: its path (relative), the checks made before the file is opened, the leaves *)
-Record group := { g_path : path; g_ok : bool; g_items : list item }.
+Inductive errkind := EValue | EType.
+(* [g_ok]: the checks made before the file is opened pass; [g_err]: the exception of the first one that fails *)
+Record group := { g_path : path; g_ok : bool; g_err : errkind; g_items : list item }.
 
-Inductive outcome := Done | ErrValue.
+Inductive outcome := Done | Err (k : errkind).
+Notation ErrValue := (Err EValue).
+Notation ErrType := (Err EType).
+(* the checks of one file visit in source order, each with the exception it raises *)
+Fixpoint first_err (chks : list (bool * errkind)) : option errkind :=
+  match chks with [] => None | (true, _) :: t => first_err t | (false, e) :: _ => Some e end.
+Definition mk_group (p : path) (chks : list (bool * errkind)) (items : list item) : group :=
+  {| g_path := p; g_ok := match first_err chks with None => true | Some _ => false end;
+     g_err := match first_err chks with Some e => e | None => EValue end; g_items := items |}.
 
 (* Discipline A (atomic.py:212-254 and radiated_power.py:209-251, _update_and_write_adf11):
    the file is read once; for each charge: validate, content[str(charge)] = ..., makedirs, dump.
@@ -208,11 +221,11 @@ Fixpoint exec_A (root : path) (gs : list group) (d : fs) : fs * outcome :=
   match gs with
   | [] => (d, Done)
   | g :: rest =>
-      if negb (g_ok g) then (d, ErrValue)
+      if negb (g_ok g) then (d, Err (g_err g))
       else let p := (root ++ g_path g)%list in
            match exec_A_items p (g_items g) (read_or_empty p d) d with
            | (d', Done) => exec_A root rest d'
-           | (d', ErrValue) => (d', ErrValue)
+           | (d', Err e) => (d', Err e)
            end
   end.
 
@@ -230,7 +243,7 @@ Fixpoint exec_B (root : path) (gs : list group) (d : fs) : fs * outcome :=
   match gs with
   | [] => (d, Done)
   | g :: rest =>
-      if negb (g_ok g) then (d, ErrValue)
+      if negb (g_ok g) then (d, Err (g_err g))
       else let p := (root ++ g_path g)%list in
            match set_items (g_items g) (read_or_empty p d) with
            | None => (d, ErrValue)
@@ -244,9 +257,10 @@ Fixpoint exec_C (root : path) (gs : list group) (d : fs) : fs * outcome :=
   match gs with
   | [] => (d, Done)
   | g :: rest =>
-      if negb (g_ok g) then (d, ErrValue)
+      if negb (g_ok g) then (d, Err (g_err g))
       else match g_items g with
            | [it] => if negb (it_ok it) then (d, ErrValue)
+                     else if negb (it_ser it) then (d, ErrType)       (* json.dumps(rate) fails: nothing is written *)
                      else exec_C root rest (write (root ++ g_path g)%list [(SNone, it_val it)] d)
            | _ => (d, ErrValue)      (* not produced by the walks below *)
            end
@@ -267,7 +281,9 @@ Inductive dkind :=
 | DPairs      (* eb,qeb, ti,qti, ni,qni, z,qz, b,qb : beam/cx.py:107-121 sanitise_and_validate, called at 171-175 *)
 | DBeam       (* e, n, t, sen, st  : beam/stopping.py:62-83, beam/population.py:66-87, beam/emission.py:118-138 *)
 | DScalar.    (* float(wavelength) : wavelength.py:95, no check *)
-Record tbl := { t_kind : dkind; t_shapes : list shape; t_val : val }.
+(* [t_ser]: the dictionary holds nothing json.dumps cannot serialise (only looked at where the caller's whole
+   dictionary is dumped) *)
+Record tbl := { t_kind : dkind; t_shapes : list shape; t_ser : bool; t_val : val }.
 
 Definition is1d (s : shape) : bool := match s with [_] => true | _ => false end.     (* x.ndim != 1 *)
 Fixpoint shape_eqb (a b : shape) : bool :=
@@ -293,38 +309,38 @@ Definition t_ok (t : tbl) : bool :=
   | _, _ => false
   end.
 (* a leaf that passes / fails whatever the family (used in examples) *)
-Definition leaf_ok (v : val) : tbl := {| t_kind := DScalar; t_shapes := []; t_val := v |}.
-Definition leaf_bad (v : val) : tbl := {| t_kind := DScalar; t_shapes := [[]]; t_val := v |}.
+Definition leaf_ok (v : val) : tbl := {| t_kind := DScalar; t_shapes := []; t_ser := true; t_val := v |}.
+Definition leaf_bad (v : val) : tbl := {| t_kind := DScalar; t_shapes := [[]]; t_ser := true; t_val := v |}.
 
 Definition dict (K V : Type) := list (K * V).
 
 (* {species: {charge: rate}} ; valid_charge is checked per charge inside the loop *)
 Definition groups_adf11 (f : adf11fam) (rates : dict species (dict Z tbl)) : list group :=
   map (fun sr : species * dict Z tbl => let (s, qs) := sr in
-         {| g_path := path_adf11 f (lsym s); g_ok := true;
-            g_items := map (fun qt : Z * tbl => let (q, t) := qt in
+         mk_group (path_adf11 f (lsym s)) [(is_elem s, EType)]
+            ( map (fun qt : Z * tbl => let (q, t) := qt in
                               {| it_key := KAdf11 f (lsym s) q;
-                                 it_ok := valid_charge s q && t_ok t; it_val := t_val t |}) qs |}) rates.
+                                 it_ok := valid_charge s q && t_ok t; it_ser := true; it_val := t_val t |}) qs)) rates.
 
 (* {donor: {donor_charge: {receiver: {receiver_charge: rate}}}} (atomic.py:186-200) *)
 Definition groups_tcx (rates : dict species (dict Z (dict species (dict Z tbl)))) : list group :=
   flat_map (fun dr : species * _ => let (d, dqs) := dr in
     flat_map (fun dqr : Z * _ => let (dq, rs) := dqr in
       map (fun rr : species * dict Z tbl => let (r, rqs) := rr in
-         {| g_path := path_tcx (lsym d) dq (lsym r); g_ok := true;
-            g_items := map (fun qt : Z * tbl => let (rq, t) := qt in
+         mk_group (path_tcx (lsym d) dq (lsym r)) [(is_elem r, EType)]
+            ( map (fun qt : Z * tbl => let (rq, t) := qt in
                               {| it_key := KTcx (lsym d) dq (lsym r) rq;
-                                 it_ok := valid_charge r rq && t_ok t; it_val := t_val t |}) rqs |}) rs) dqs) rates.
+                                 it_ok := valid_charge r rq && t_ok t; it_ser := true; it_val := t_val t |}) rqs)) rs) dqs) rates.
 
 (* {class: {element: {charge: {transition: pec}}}} (pec.py:160-207) *)
 Definition groups_pec (rates : dict pecfam (dict species (dict Z (dict (level * level) tbl)))) : list group :=
   flat_map (fun ce : pecfam * _ => let (c, els) := ce in
     flat_map (fun eq : species * _ => let (e, qs) := eq in
       map (fun qt : Z * dict (level * level) tbl => let (q, trs) := qt in
-         {| g_path := path_pec c (lsym e) q; g_ok := valid_charge e q;
-            g_items := map (fun tt : (level * level) * tbl => let (tr, t) := tt in
+         mk_group (path_pec c (lsym e) q) [(is_elem e, EType); (valid_charge e q, EValue)]
+            ( map (fun tt : (level * level) * tbl => let (tr, t) := tt in
                               {| it_key := KPec c (lsym e) q (norm_trans tr);
-                                 it_ok := t_ok t; it_val := t_val t |}) trs |}) qs) els) rates.
+                                 it_ok := t_ok t; it_ser := true; it_val := t_val t |}) trs)) qs) els) rates.
 
 (* {donor: {donor_charge: {receiver: {receiver_charge: {transition: pec}}}}} (pec.py:245-300) *)
 Definition groups_pectcx
@@ -333,20 +349,20 @@ Definition groups_pectcx
     flat_map (fun dqr : Z * _ => let (dq, rs) := dqr in
       flat_map (fun rr : species * _ => let (r, rqs) := rr in
         map (fun qt : Z * dict (level * level) tbl => let (rq, trs) := qt in
-           {| g_path := path_pectcx (lsym d) dq (lsym r) rq;
-              g_ok := valid_charge d (dq + 1) && valid_charge r rq;
-              g_items := map (fun tt : (level * level) * tbl => let (tr, t) := tt in
+           mk_group (path_pectcx (lsym d) dq (lsym r) rq)
+              [(is_elem d, EType); (valid_charge d (dq + 1), EValue); (is_elem r, EType); (valid_charge r rq, EValue)]
+              ( map (fun tt : (level * level) * tbl => let (tr, t) := tt in
                                 {| it_key := KPecTcx (lsym d) dq (lsym r) rq (norm_trans tr);
-                                   it_ok := t_ok t; it_val := t_val t |}) trs |}) rqs) rs) dqs) rates.
+                                   it_ok := t_ok t; it_ser := true; it_val := t_val t |}) trs)) rqs) rs) dqs) rates.
 
 (* {species: {charge: {transition: wavelength}}} (wavelength.py:70-105); no per-leaf check *)
 Definition groups_wvl (w : dict species (dict Z (dict (level * level) tbl))) : list group :=
   flat_map (fun eq : species * _ => let (e, qs) := eq in
     map (fun qt : Z * dict (level * level) tbl => let (q, trs) := qt in
-       {| g_path := path_wvl (lsym e) q; g_ok := valid_charge e q;
-          g_items := map (fun tt : (level * level) * tbl => let (tr, t) := tt in
+       mk_group (path_wvl (lsym e) q) [(is_elem e, EType); (valid_charge e q, EValue)]
+          ( map (fun tt : (level * level) * tbl => let (tr, t) := tt in
                             {| it_key := KWvl (lsym e) q (norm_trans tr);
-                               it_ok := t_ok t; it_val := t_val t |}) trs |}) qs) w.
+                               it_ok := t_ok t; it_ser := true; it_val := t_val t |}) trs)) qs) w.
 
 (* {donor: {receiver: {charge: {transition: {metastable: rate}}}}} (beam/cx.py:120-205);
    "if not metastable >= 0: raise ValueError" precedes the data checks of that leaf *)
@@ -355,19 +371,19 @@ Definition groups_bcx
   flat_map (fun dr : species * _ => let (d, rs) := dr in
     flat_map (fun rq : species * _ => let (r, qs) := rq in
       map (fun qt : Z * dict (level * level) (dict Z tbl) => let (q, trs) := qt in
-         {| g_path := path_bcx (lsym d) (lsym r) q; g_ok := valid_charge r q;
-            g_items := flat_map (fun tm : (level * level) * dict Z tbl => let (tr, ms) := tm in
+         mk_group (path_bcx (lsym d) (lsym r) q) [(is_elem d, EType); (is_elem r, EType); (valid_charge r q, EValue)]
+            ( flat_map (fun tm : (level * level) * dict Z tbl => let (tr, ms) := tm in
                           map (fun mt : Z * tbl => let (m, t) := mt in
                                  {| it_key := KBcx (lsym d) (lsym r) q (norm_trans tr) m;
-                                    it_ok := (0 <=? m) && t_ok t; it_val := t_val t |}) ms) trs |}) qs) rs) rates.
+                                    it_ok := (0 <=? m) && t_ok t; it_ser := true; it_val := t_val t |}) ms) trs)) qs) rs) rates.
 
 (* {beam: {target: {charge: rate}}} (beam/stopping.py:113-130) *)
 Definition groups_bstop (rates : dict species (dict species (dict Z tbl))) : list group :=
   flat_map (fun bt : species * _ => let (b, ts) := bt in
     flat_map (fun tq : species * _ => let (t, qs) := tq in
       map (fun qr : Z * tbl => let (q, r) := qr in
-         {| g_path := path_bstop (lsym b) (lsym t) q; g_ok := valid_charge t q;
-            g_items := [{| it_key := KBstop (lsym b) (lsym t) q; it_ok := t_ok r; it_val := t_val r |}] |}) qs) ts) rates.
+         mk_group (path_bstop (lsym b) (lsym t) q) [(is_elem b, EType); (is_elem t, EType); (valid_charge t q, EValue)]
+            ( [{| it_key := KBstop (lsym b) (lsym t) q; it_ok := t_ok r; it_ser := t_ser r; it_val := t_val r |}])) qs) ts) rates.
 
 (* {beam: {metastable: {target: {charge: rate}}}} (beam/population.py:118-140);
    "if beam_metastable < 0: raise ValueError" precedes the charge check *)
@@ -376,18 +392,19 @@ Definition groups_bpop (rates : dict species (dict Z (dict species (dict Z tbl))
     flat_map (fun mt : Z * _ => let (m, ts) := mt in
       flat_map (fun tq : species * _ => let (t, qs) := tq in
         map (fun qr : Z * tbl => let (q, r) := qr in
-           {| g_path := path_bpop (lsym b) m (lsym t) q; g_ok := (0 <=? m) && valid_charge t q;
-              g_items := [{| it_key := KBpop (lsym b) m (lsym t) q; it_ok := t_ok r; it_val := t_val r |}] |}) qs) ts) ms) rates.
+           mk_group (path_bpop (lsym b) m (lsym t) q)
+              [(is_elem b, EType); (0 <=? m, EValue); (is_elem t, EType); (valid_charge t q, EValue)]
+              ( [{| it_key := KBpop (lsym b) m (lsym t) q; it_ok := t_ok r; it_ser := t_ser r; it_val := t_val r |}])) qs) ts) ms) rates.
 
 (* {beam: {target: {charge: {transition: rate}}}} (beam/emission.py:95-170) *)
 Definition groups_bem (rates : dict species (dict species (dict Z (dict (level * level) tbl)))) : list group :=
   flat_map (fun bt : species * _ => let (b, ts) := bt in
     flat_map (fun tq : species * _ => let (t, qs) := tq in
       map (fun qt : Z * dict (level * level) tbl => let (q, trs) := qt in
-         {| g_path := path_bem (lsym b) (lsym t) q; g_ok := valid_charge t q;
-            g_items := map (fun tt : (level * level) * tbl => let (tr, r) := tt in
+         mk_group (path_bem (lsym b) (lsym t) q) [(is_elem b, EType); (is_elem t, EType); (valid_charge t q, EValue)]
+            ( map (fun tt : (level * level) * tbl => let (tr, r) := tt in
                               {| it_key := KBem (lsym b) (lsym t) q (norm_trans tr);
-                                 it_ok := t_ok r; it_val := t_val r |}) trs |}) qs) ts) rates.
+                                 it_ok := t_ok r; it_ser := t_ser r; it_val := t_val r |}) trs)) qs) ts) rates.
 
 (* ------------------------------------------------------------------------------------------ *)
 (* the public functions                                                                         *)
@@ -400,7 +417,7 @@ Definition exec (m : mode) := match m with MA => exec_A | MB => exec_B | MC => e
 Definition shift_charges (c : Z) (r : dict species (dict Z tbl)) : dict species (dict Z tbl) :=
   map (fun sr : species * dict Z tbl => (fst sr, map (fun qt : Z * tbl => (fst qt + c, snd qt)) (snd sr))) r.
 
-Definition hydrogen : species := {| sym := "H"; znum := 1 |}.
+Definition hydrogen : species := {| sym := "H"; znum := 1; is_elem := true |}.
 
 (* install.py:_thermalcx_adf15_2dto3d_converter: new_rates[hydrogen][0][element][charge + 1][transition] *)
 Definition adf15_tcx (r : dict species (dict Z (dict (level * level) tbl)))
@@ -488,7 +505,7 @@ Fixpoint run_steps (ss : list (mode * path * list group)) (d : fs) : fs * outcom
   | (m, root, gs) :: rest =>
       match exec m root gs d with
       | (d', Done) => run_steps rest d'
-      | (d', ErrValue) => (d', ErrValue)
+      | (d', Err e) => (d', Err e)
       end
   end.
 
